@@ -102,11 +102,13 @@ Qed.
 
 Lemma run_timers_idle : forall s s', InvW s -> HeapModel.batch (heap s) = [] -> run_timers sc s = R s' ->
   gdn s' = false -> idn s' = true ->
-  tasks s' = tasks s /\
-  (HeapModel.num (heap s') = 0 \/ (time_valid s' = true /\ forall t e, HeapSpec.abs (heap s') t = Some e -> time s' < e)).
+  tasks s' = tasks s /\ kern s' = kern s /\
+  (HeapModel.num (heap s') = 0 \/
+   (time_valid s' = true /\ (forall t e, HeapSpec.abs (heap s') t = Some e -> time s' < e) /\
+    (time_valid s = false -> time s' = clock (kern s)))).
 Proof.
   intros s s' I B E D H. unfold run_timers in E.
-  destruct (Z.eqb_spec (HeapModel.num (heap s)) 0) as [Z0|NZ]; [inversion E; subst; split; [reflexivity|left; exact Z0]|].
+  destruct (Z.eqb_spec (HeapModel.num (heap s)) 0) as [Z0|NZ]; [inversion E; subst; split; [reflexivity|split; [reflexivity|left; exact Z0]]|].
   cbv zeta in E. set (s1 := validate_now s) in *.
   assert (H1 : heap s1 = heap s) by apply heap_validate.
   assert (TV1 : time_valid s1 = true) by (unfold s1, validate_now; destruct (time_valid s) eqn:X; [exact X|reflexivity]).
@@ -115,12 +117,14 @@ Proof.
   { rewrite H1. exact B. }
   rewrite C in E. unfold lift_heap in E. cbn [bind] in E.
   destruct (timers_dispatch_idle _ _ _ E D H) as [_ ->].
+  split; [unfold s1, validate_now; destruct (time_valid s); reflexivity|].
   split; [unfold s1, validate_now; destruct (time_valid s); reflexivity|]. right.
-  split; [exact TV1|]. intros t e A. apply (AB t e A).
+  split; [exact TV1|]. split; [intros t e A; apply (AB t e A)|].
+  intros TV0. cbn [time set_numobjs set_heap]. unfold s1, validate_now. rewrite TV0. reflexivity.
 Qed.
 
 Lemma tasks_loop_idle : forall fuel s s', tasks_loop sc fuel s = R s' -> gdn s' = false -> idn s' = true ->
-  tasks s' = tasks s /\ heap s' = heap s /\ time s' = time s /\ time_valid s' = time_valid s.
+  tasks s' = tasks s /\ heap s' = heap s /\ time s' = time s /\ time_valid s' = time_valid s /\ kern s' = kern s.
 Proof.
   induction fuel as [|f IH]; intros s s' E D H; cbn [tasks_loop] in E.
   { destruct (cur s) as [[|k rest]|] eqn:C; [inversion E; subst; repeat split; reflexivity|unfold halt in E; inversion E|inversion E; subst; repeat split; reflexivity]. }
@@ -132,14 +136,14 @@ Proof.
     pose proof (tasks_loop_exth sc f s2) as T. unfold RExt in T. rewrite E in T. cbn [res_state] in T.
     destruct (idle_ext ch s2 s' ch_nrs T D H) as [D2 H2].
     destruct (run_pending_events_idle _ _ RP D2 H2) as [_ ->].
-    destruct (IH s1 s' E D H) as (A1 & A2 & A3 & A4). repeat split; assumption.
+    destruct (IH s1 s' E D H) as (A1 & A2 & A3 & A4 & A5). repeat split; assumption.
   - exfalso. destruct (run_script sc (emit s1 (TCallTask k)) (HK_K + k)) as [s2|s2] eqn:RS; cbn [bind] in E; [|discriminate E].
     pose proof (tasks_loop_exth sc f s2) as T. unfold RExt in T. rewrite E in T. cbn [res_state] in T.
     apply (script_call_idle s1 (TCallTask k) _ s2 I RS s' ch ch_nrs T D H).
 Qed.
 
 Lemma run_tasks_idle : forall s s', run_tasks sc s = R s' -> gdn s' = false -> idn s' = true ->
-  tasks s' = [] /\ heap s' = heap s /\ time s' = time s /\ time_valid s' = time_valid s.
+  tasks s' = [] /\ heap s' = heap s /\ time s' = time s /\ time_valid s' = time_valid s /\ kern s' = kern s.
 Proof.
   intros s s' E D H. unfold run_tasks in E. cbv zeta in E. apply (tasks_loop_idle _ _ _ E D H).
 Qed.
